@@ -26,7 +26,6 @@ K_ARTIFACT = "not decided: the deciding function RuneUpdater::index_runes (edict
 K_ORD = "not decided: the functions live in the `ord` crate outside the value-level files and small kernels that engine E2 reaches (DESIGN §0.2, §6)"
 UNBUILT = {
  "C01": K_FIFO, "C02": K_FIFO, "C03": K_FIFO + "; the inscription-movement half is in index_inscriptions (see C04)",
- "C04": K_INS + "; the merge of pseudo-output entries and the inscription-list encoding it relies on are under contract in C35", "C05": K_INS, "C06": K_INS, "C07": K_INS,
  "C09": K_ARTIFACT + ". The arithmetic it uses (Lot, even split) is under contract in C08",
  "C16": "not decided as stated (whole-chain totality): panic-freedom obligations are discharged for the functions under contract in C25/C26 (varint, Runestone::integers), C27 (from_value, pointer), C31 (parsers), C35 (decoders of stored values) and C10/C08 (mint, update, unallocated never error), but envelope parsing, Properties::from_cbor, index_inscriptions and index_runes are not under contract, so the property as a whole is not claimed",
  "C20": K_ORD + "; TransactionBuilder is ~1000 lines over BTreeMap/Vec state with f64 fee arithmetic",
